@@ -718,6 +718,43 @@ def two_spellings_scenario(ctx, viol):
         pr.destroy()
 
 
+def malformed_done_scenario(ctx, viol):
+    """A script writes a line with the syntax of a `done` record but without a status (`@@REDO:done:1:1.0@@ oops`).  The
+    line itself is in-band signalling (the recorded finding); what this scenario checks is everything ELSE: the later
+    lines of that script and the lines of every other target must still appear exactly once, live and in the replay
+    (before the repair the viewer aborted on `expect("improperly formatted done entry")`: the live output ended there
+    with exit status 0, and every later `redo-log` of the target exited 101)."""
+    stats = dict(builds=0)
+    for j in (1, 2):
+        pr = Project()
+        try:
+            pr.write("a.do", "echo a-1 >&2\necho '@@REDO:done:1:1.0@@ oops' >&2\necho a-2 >&2\nredo-ifchange b\necho a-3 >&2\necho a\n")
+            pr.write("b.do", "echo b-1 >&2\necho b\n")
+            base = ["--no-pretty", "--no-color", "--no-status"]
+            rc, out, err = pr.run(["redo", "-j%d" % j] + base + ["a"], timeout=60)
+            rc2, out2, err2 = pr.run(["redo-log"] + base + ["-r", "a"], timeout=60)
+            stats["builds"] += 1
+            problems = []
+            if rc != 0 or rc2 != 0:
+                problems.append("exit statuses %s (redo) %s (redo-log -r)" % (rc, rc2))
+            for what, text in (("live output", err), ("redo-log -r", out2)):
+                got = attribute(parse_out(text))
+                for t, want in (("a", ["a-1", "a-2", "a-3"]), ("b", ["b-1"])):
+                    g = [x for x in got.get(t, []) if not x.startswith("@@REDO:")]
+                    if g != want:
+                        problems.append("%s: lines under %s are %r, expected %r" % (what, t, g, want))
+            if problems:
+                m = re.search(r"panicked at [^\n]*\n[^\n]*", err + err2)
+                p = write_replay("C18", "malformed-done", dict(kind="impl-monitor", clause="every stderr line appears exactly once, in order, under its target, live and in the replay", j=j,
+                                                               problems=problems, panic=m.group(0) if m else None, live=err[-1500:], replay=(out2 + err2)[-1500:],
+                                                               scenario="a.do: echo a-1; echo '@@REDO:done:1:1.0@@ oops'; echo a-2; redo-ifchange b; echo a-3 (all to stderr); b.do: echo b-1 >&2"))
+                viol.append(Violation("C18", p, "a script line shaped like a `done` record without a status: " + "; ".join(problems[:3]) + ("; the log viewer aborted: " + m.group(0).replace("\n", " ")[:140] if m else "")))
+                return stats
+        finally:
+            pr.destroy()
+    return stats
+
+
 def glued_record_scenario(ctx, viol):
     """A script leaves text without a newline on its stderr and then calls a redo command (`printf 'checking y... ' >&2;
     redo-ifchange y`, the configure idiom): redo-ifchange's start record lands on the same log line as the text.  Every
@@ -884,12 +921,27 @@ def status_line_scenario(ctx, viol):
     `redo N ` prefix leaves no room at all — in both cases the viewer used to panic (before 35c93e3) and every later line
     of the build was lost from the live output.  All lines of the script must appear exactly once, in order."""
     name = "a" + "\u00e9" * 40
-    for width in (70, 71, 5):
+    stats = {}
+    for width in (70, 71, 5, 30):
         pr = Project()
         try:
             pr.write(name + ".do", "echo first >&2\nsleep 1.7\necho second >&2\nredo-ifchange inner\necho third >&2\necho x\n")
             pr.write("inner.do", "echo inner-1 >&2\nsleep 1.3\necho inner-2 >&2\necho i\n")
             rc, err = run_on_terminal(pr, ["redo", "--status", "--no-pretty", "--no-color", name], width, timeout=60)
+            # every status line that reached the terminal is one the model of the status arithmetic produces for this
+            # width, some number of lines read so far and one of the stacks of targets the viewer can be inside of
+            seen = set(x for x in re.findall(r"\r([^\r\n]*)\r", err) if x.strip())
+            reqs = ["status-line %d %d %s" % (width, n, ",".join(hx(x) for x in st) if st else "") for n in range(0, 40) for st in ([], [name], [name, "inner"])]
+            allowed = set(unhx(x).decode() for x in run_lines(MODEL, reqs) if x != "bad-op")
+            stats["status_lines_seen"] = stats.get("status_lines_seen", 0) + len(seen)
+            stats["status_lines_distinct_allowed"] = len(allowed)
+            odd = sorted(seen - allowed)
+            if odd and "panicked" not in err:
+                p = write_replay("C18", "corr-status-line", dict(kind="model-vs-impl", layer="StatusLine.status / shown", width=width, target=name, seen=sorted(seen), not_produced_by_model=odd, model_examples=sorted(allowed)[:6]))
+                viol.append(Violation("C18", p, "the status line %r (width %d) is not what the model of the status arithmetic produces for any number of lines and any stack of targets" % (odd[0], width), no_input=True))
+                return stats
+            if not seen and width >= 20:
+                stats["status_never_seen"] = stats.get("status_never_seen", 0) + 1
             text = re.sub(r"\r[^\r\n]*\r", "", err)
             got = attribute(parse_out(text))
             want = {name: ["first", "second", "third"], "inner": ["inner-1", "inner-2"]}
@@ -900,9 +952,10 @@ def status_line_scenario(ctx, viol):
                                                             want=want, got={t: got.get(t) for t in want}, panic=m.group(0) if m else None, stderr=err[-1200:]))
                 viol.append(Violation("C18", p, "live output with the status line on (width %d, target name with multi-byte characters): exit %d, lines %r, expected %r%s"
                                       % (width, rc, {t: (got.get(t) or [])[:4] for t in bad}, {t: want[t] for t in bad}, "; the log viewer aborted: " + m.group(0).replace("\n", " ")[:160] if m else "")))
-                return
+                return stats
         finally:
             pr.destroy()
+    return stats
 
 
 CW_CAP = 20000          # upper bound of lines per background writer (keeps a round bounded on a stalled machine)
@@ -1166,13 +1219,16 @@ def run(ctx):
     if not viol:
         glued_record_scenario(ctx, viol)
     if not viol:
+        malformed_done_scenario(ctx, viol)
+    if not viol:
         non_utf8_scenario(ctx, viol)
     if not viol:
         split_utf8_scenario(ctx, viol)
     if not viol:
         oob_subdir_scenario(ctx, viol)
+    s6 = {}
     if not viol:
-        status_line_scenario(ctx, viol)
+        s6 = status_line_scenario(ctx, viol) or {}
     s5 = {}
     if not viol:
         # own generator: the scenarios above keep their input streams
@@ -1182,4 +1238,4 @@ def run(ctx):
                 rule="record-shaped and malformed lines from a seeded grammar (non-trivial = accepted by the parser); synthetic 6-target log forests in two directories (t0 t1 t2 sub/t3 sub/t4 sub/t5; records do/unchanged/waiting/done/other whose names are random spellings relative to the log's own directory — t1, ./t1, sub/../t1, ../sub/t4, sub//t3, sub/./t3 …; look-alikes, missing files, cycles; roots through random spellings too) replayed by the real redo-log -r with and without -u (non-trivial = replay without error); live builds of random graphs at several -j with numbered/partial/70 kB/trailing-whitespace lines; live builds of trees whose inner targets keep 1-3 background writers (and sometimes a second redo-ifchange) on their own log while redo-ifchange builds ~20 children, free-running and once under strace with every write(2) slowed down (lines per writer exactly once and in order under the target, stored records well-formed, every record written by ONE write call)",
                 samples=smp1 + smp2 + smp3, disagreements_checked=s1["requests"] + s2.get("replays", 0),
                 traces_validated_against_impl=s2.get("replays", 0), known_hit=known_hit,
-                distribution=dict(record=s1, pretty=s0, replay=s2, live=s3, follow_oob_scenario=s4, concurrent_writers=s5))
+                distribution=dict(record=s1, pretty=s0, replay=s2, live=s3, follow_oob_scenario=s4, concurrent_writers=s5, status_line=s6))
